@@ -34,34 +34,10 @@ func opaqueIface(o *Opaque) Iface { return Iface{T: opaqueType(o.Kind), V: o} }
 
 func init() {
 	ctxBg := func(ex *Exec, c *frame, fn *ssa.Function, a []Value) Value {
-		return opaqueIface(ex.newOpaque("context"))
+		return opaqueIface(ex.newCtx(nil, false))
 	}
 	stdModels["context.Background"] = ctxBg
 	stdModels["context.TODO"] = ctxBg
-
-	// sync/atomic on pointers: one indivisible load/store of the cell
-	stdModels["sync/atomic.StorePointer"] = func(ex *Exec, c *frame, fn *ssa.Function, a []Value) Value {
-		cell, _ := a[0].(*Cell)
-		if cell == nil {
-			ex.goPanicf("invalid memory address or nil pointer dereference")
-		}
-		if cell.Own != nil {
-			ex.recordWrite(cell.Own, c)
-		}
-		cell.Atomic = true
-		cell.V = a[1]
-		ex.atomicOps++
-		return nil
-	}
-	stdModels["sync/atomic.LoadPointer"] = func(ex *Exec, c *frame, fn *ssa.Function, a []Value) Value {
-		cell, _ := a[0].(*Cell)
-		if cell == nil {
-			ex.goPanicf("invalid memory address or nil pointer dereference")
-		}
-		cell.Atomic = true
-		ex.atomicOps++
-		return cell.V
-	}
 
 	// sync.Pool: Get returns any object previously Put and not yet handed out again, or a new one (the
 	// runtime may drop pooled objects at any time); Put makes the object available to later Gets.
@@ -102,10 +78,4 @@ func init() {
 		return ex.call(newFn, nil, nil, c)
 	}
 
-	// sync: tier A is single-threaded; locks are no-ops (tier B replaces these)
-	nop := func(ex *Exec, c *frame, fn *ssa.Function, a []Value) Value { return zeroResults(fn) }
-	for _, n := range []string{"(*sync.Mutex).Lock", "(*sync.Mutex).Unlock", "(*sync.RWMutex).Lock", "(*sync.RWMutex).Unlock",
-		"(*sync.RWMutex).RLock", "(*sync.RWMutex).RUnlock"} {
-		stdModels[n] = nop
-	}
 }
